@@ -4,16 +4,23 @@
   Saltpack/Proofs/StreamLemmas.lean.
 
   What is proved here: the write side completely (the plaintext bufferer shared
-  by the three encoder streams, the BaseX encoder stream), the chunk reader, and
-  the source model.  The armor *reader* stack (punctuatedReader →
-  framedDecoderStream → filteringReader → BaseX decoder) is modelled call by
-  call in Model/Stream.lean and compared with the implementation per `Read`
-  under eight fragmentations × ten buffer-size schedules on genuine, re-flowed
-  and malformed texts on every run; its whole-text meaning is `Armor.openPure`
-  (C11).  A machine-checked layer theorem for that stack is not yet in place —
-  MANIFEST labels this part `correspondence only`.
+  by the three encoder streams, the BaseX encoder stream); on the read side the
+  two outer layers as whole-stream theorems — the chunk reader (the `Read` side
+  of all three receivers: any buffer sizes ⇒ the concatenation of the chunks,
+  then the condition, sticky) and the punctuated reader (any fragmentation of
+  the underlying reader and any buffer sizes ⇒ the text up to the next period,
+  then `ErrPunctuated`, then on from behind the period) — and the source model.
+  The two inner layers of the armor reader stack (filteringReader → BaseX
+  decoder, and the frame checks of framedDecoderStream around them) are modelled
+  call by call in Model/Stream.lean and compared with the implementation per
+  `Read` under eight fragmentations × ten buffer-size schedules on genuine,
+  re-flowed and malformed texts on every run; their whole-text meaning is
+  `Armor.openPure` (C11).  A machine-checked layer theorem for those two layers
+  is not in place — MANIFEST labels that part `correspondence only`.
 -/
 import Saltpack.Proofs.StreamLemmas
+import Saltpack.Proofs.ChunkReaderAll
+import Saltpack.Proofs.PunctAll
 
 namespace Saltpack.Props.C13
 open Saltpack Saltpack.Stream Saltpack.Proofs
@@ -71,6 +78,81 @@ theorem C13_chunk_reader_terminal (cap : Nat) (s : CRState Source)
     crPending s' = [] ∧ crRead Proofs.scriptNext cap (s'.chunker.length + 3) s' [] = ([], some x, s') :=
   crRead_terminal cap s hwf d x s' h
 
+/-- **Reading to the end with any buffer sizes** (chunkReader, generic in the
+    chunker — decrypt, verify and signcrypt-open all sit behind it): if the
+    chunker hands out the chunks `cs` and then the condition `e` (no chunk
+    before the last is empty — an empty chunk without a condition is the
+    panic case C15 excludes), then for every schedule of positive buffer sizes
+    the bytes returned by the successive `Read`s are exactly `cs.flatten`, the
+    first condition reported is `e`, and the reader is left in its terminal
+    state. -/
+theorem C13_chunk_reader_all {σ : Type} (next : σ → Bytes × Option RErr × σ)
+    (σ0 : σ) (n : Nat) (cs : List Bytes) (e : RErr)
+    (htr : chunkTrace next n σ0 = (cs, some e)) (hne : ∀ c ∈ cs.dropLast, c ≠ [])
+    (caps : List Nat) (hcaps : ∀ c ∈ caps, 0 < c)
+    (inner : Nat) (hi : n + 1 ≤ inner) (fuel : Nat) (hf : cs.flatten.length + 1 ≤ fuel) :
+    (crReadAll next caps inner fuel 0 { chunker := σ0 } []).1 = cs.flatten ∧
+    (crReadAll next caps inner fuel 0 { chunker := σ0 } []).2.1 = some e ∧
+    (crReadAll next caps inner fuel 0 { chunker := σ0 } []).2.2.prevChunk = [] ∧
+    (crReadAll next caps inner fuel 0 { chunker := σ0 } []).2.2.prevErr = some e :=
+  crReadAll_eq next σ0 n cs e htr hne caps hcaps inner hi fuel hf
+
+/-- two buffer-size schedules give the same bytes and the same condition -/
+theorem C13_chunk_reader_caps_independent {σ : Type} (next : σ → Bytes × Option RErr × σ)
+    (σ0 : σ) (n : Nat) (cs : List Bytes) (e : RErr)
+    (htr : chunkTrace next n σ0 = (cs, some e)) (hne : ∀ c ∈ cs.dropLast, c ≠ [])
+    (caps caps' : List Nat) (hcaps : ∀ c ∈ caps, 0 < c) (hcaps' : ∀ c ∈ caps', 0 < c)
+    (inner inner' : Nat) (hi : n + 1 ≤ inner) (hi' : n + 1 ≤ inner')
+    (fuel fuel' : Nat) (hf : cs.flatten.length + 1 ≤ fuel) (hf' : cs.flatten.length + 1 ≤ fuel') :
+    (crReadAll next caps inner fuel 0 { chunker := σ0 } []).1 =
+      (crReadAll next caps' inner' fuel' 0 { chunker := σ0 } []).1 ∧
+    (crReadAll next caps inner fuel 0 { chunker := σ0 } []).2.1 =
+      (crReadAll next caps' inner' fuel' 0 { chunker := σ0 } []).2.1 :=
+  crReadAll_caps_independent next σ0 n cs e htr hne caps caps' hcaps hcaps' inner inner' hi hi' fuel fuel' hf hf'
+
+/-- a reported condition (other than the model's marker for the Go panic) is
+    reported again, with no data, by every later `Read` of any size -/
+theorem C13_chunk_reader_sticky {σ : Type} (next : σ → Bytes × Option RErr × σ)
+    (cap inner : Nat) (s : CRState σ) (d : Bytes) (x : RErr) (s1 : CRState σ)
+    (h : crRead next cap inner s [] = (d, some x, s1)) (hx : x ≠ crPanic)
+    (cap' inner' : Nat) (hi : 1 ≤ inner') :
+    crRead next cap' inner' s1 [] = ([], some x, s1) :=
+  crRead_sticky next cap inner s d x s1 h hx cap' inner' hi
+
+/-- **punctuatedReader, whole segments**: from any reachable (`WF`) state whose
+    logical remaining input is `(t, c)` — buffered bytes, then what the
+    underlying reader still delivers, ending in condition `c` — reading with
+    any schedule of positive buffer sizes until a condition is reported yields:
+    the text before the first period and `ErrPunctuated`, leaving exactly the
+    text behind the period; or, without a period, all of `t` and then `c`.
+    Nothing here depends on how the underlying reader fragments its deliveries
+    (`s.text` is all that matters) or on the caller's buffer sizes. -/
+theorem C13_punct_segment (caps : List Nat) (hpos : ∀ c ∈ caps, 0 < c) (s : PState) (hwf : s.WF)
+    (fuel : Nat) (hfuel : s.cost < fuel) (k : Nat) (t : Bytes) (c : RErr) (ht : s.text = (t, c)) :
+    (∀ a rest, t = a ++ Armor.period :: rest → Armor.period ∉ a →
+      ∃ s1, pReadSeg caps fuel k s [] = (a, some punctErr, s1) ∧ s1.WF ∧ s1.text = (rest, c) ∧ s1.cost < s.cost) ∧
+    (Armor.period ∉ t → ∃ s1, pReadSeg caps fuel k s [] = (t, some c, s1) ∧ s1.WF ∧ s1.buf = []) :=
+  pReadSeg_eq caps hpos s hwf fuel hfuel k t c ht
+
+/-- every state reached from a fresh reader is `WF`, a fresh reader's logical
+    input is the script's text, and the model's own fuel suffices -/
+theorem C13_punct_reachable (src : Source) (cap : Nat) (hcap : 0 < cap) (s : PState) (hwf : s.WF) :
+    ({ src := src } : PState).WF ∧ ({ src := src } : PState).text = srcText src ∧
+    (pRead cap s).2.2.WF ∧ s.cost < fuelOf s :=
+  ⟨pWF_init src, ptext_init src, pWF_pRead cap hcap s hwf, cost_lt_fuelOf s⟩
+
+/-- **fragmentation independence of the punctuated reader**: two scripts that
+    deliver the same text with the same final condition, read with two
+    schedules of buffer sizes, give the same segment and the same condition (and,
+    when the segment ended at a period, states with the same remaining text) -/
+theorem C13_punct_independent (src src' : Source) (h : srcText src = srcText src')
+    (caps caps' : List Nat) (hpos : ∀ c ∈ caps, 0 < c) (hpos' : ∀ c ∈ caps', 0 < c)
+    (fuel fuel' : Nat) (hfuel : srcCost src < fuel) (hfuel' : srcCost src' < fuel') :
+    (pReadSeg caps fuel 0 { src := src } []).1 = (pReadSeg caps' fuel' 0 { src := src' } []).1 ∧
+    (pReadSeg caps fuel 0 { src := src } []).2.1 = (pReadSeg caps' fuel' 0 { src := src' } []).2.1 :=
+  let r := pReadSeg_independent src src' h caps caps' hpos hpos' fuel fuel' hfuel hfuel'
+  ⟨r.1, r.2.1⟩
+
 /-- **Source model**: a `Read` takes a prefix of the data, at most the buffer
     size, and leaves the rest — fragmentations of the same bytes differ only in
     where the cuts fall -/
@@ -85,6 +167,9 @@ theorem C13_source_prefix (cap : Nat) (src : Source) :
 theorem C13_reader_bounds : Armor.frameLim = 8192 ∧ dBufSize Gen.base62Std = 8192 * 32 := by decide
 
 /-! ## non-vacuity -/
+example :
+    let r := crReadAll Proofs.scriptNext [2] 5 7 0 { chunker := [([1, 2, 3], none), ([4], none), ([5, 6], none)] } []
+    (r.1, r.2.1) = ([1, 2, 3, 4, 5, 6], some .eof) := by decide
 example : (([[1, 2, 3], [], [4]] : List Bytes).foldl Chunker.write ({ bs := 2 } : Chunker)).close v2 =
     [([1, 2], false), ([3, 4], true)] := by decide
 
